@@ -88,6 +88,14 @@ CHECKS = {
    note="trusted: pv/ref/conditions.py (transcription of the documented conditions), pv/ref/sym.py, Clarabel 'optimal' for the "
         "implication SDPs; 'attained by a real member' relies on the published interpolation theorems",
    tech="reference-model monitor over constraint lists observed after set_class_constraints, under permuted histories"),
+ "C17": dict(cat="exploration", ref="DESIGN 3/C17",
+   text="After finite solves of generated models covering all 24 classes in every parameter variant (named/unnamed points and "
+        "functions, repeated evaluations at a named point, stationary point declared last) the tables of constraints and "
+        "get_class_constraints_duals() are compared with the reference conditions: one table per documented condition, shape and "
+        "labels, entry (i,j) = constraint of that ordered pair (canonical functional equality) or 0, dual entry = eval_dual() "
+        "exactly, names parse back to (function, condition, points); repeated after a second solve of the same object.",
+   note="trusted: pv/ref/conditions.py names/pairs, pv/canon.py",
+   tech="reference-model monitor over the dual-table accessor and constraint names after real solves"),
 }
 NOT_YET = {}
 
